@@ -419,7 +419,7 @@ func checkC07(r *Run) []Violation {
 			}
 		}
 		for _, c := range att.Calls {
-			if c.Returned && c.Verdict == nil && c.Snap != nil {
+			if c.Returned && (c.Verdict == nil || c.Skipped) && c.Snap != nil {
 				acceptedUnits = append(acceptedUnits, h.unitByNext(c.Snap.Next))
 			}
 		}
@@ -458,7 +458,7 @@ func checkC04(r *Run) []Violation {
 			}
 		}
 		for _, c := range att.Calls {
-			if !(c.Returned && c.Verdict == nil) || c.Snap == nil {
+			if !(c.Returned && (c.Verdict == nil || c.Skipped)) || c.Snap == nil {
 				continue
 			}
 			u := h.unitByNext(c.Snap.Next)
@@ -533,6 +533,16 @@ func checkC17(r *Run) []Violation {
 				vs = append(vs, Violation{"C17", "accepted-malformed", fmt.Sprintf("a malformed packet (%d bytes: %x) was injected at packet %d and Stream returned nil", len(att.Plan.Stream.Invalid), clip(att.Plan.Stream.Invalid, 40), att.Plan.Stream.AtPacket), i})
 			}
 		}
+		// "accepts exactly": a stream in which nothing malformed has arrived (yet) must
+		// not end with an error - the gate would be rejecting a well-formed event
+		onlyBenign := true
+		for _, c := range att.Causes {
+			onlyBenign = onlyBenign && (c == "cancel" || c == "eof-packet")
+		}
+		if onlyBenign && att.Returned && !att.Hang && !att.StepCapped && att.StreamErr != nil && att.HadConn && att.Master != nil && len(att.Master.Dumps) > 0 && att.Master.Dumps[0].Served {
+			vs = append(vs, Violation{"C17", "rejected-well-formed", fmt.Sprintf("no malformed packet had been delivered (causes %v, %d of %d packets delivered) and Stream returned %s", att.Causes, att.PacketsDeliv, att.PacketsTotal, errText(att.StreamErr)), i})
+			return vs
+		}
 		if att.Master != nil && len(att.Master.Dumps) > 0 {
 			d := att.Master.Dumps[0]
 			if d.Served {
@@ -553,7 +563,7 @@ func checkC17(r *Run) []Violation {
 			}
 		}
 		for _, c := range att.Calls {
-			if c.Returned && c.Verdict == nil {
+			if c.Returned && (c.Verdict == nil || c.Skipped) {
 				accepted++
 			}
 		}
